@@ -435,14 +435,13 @@ func (m *Memory) FindLatest(
 	return m.Match(ctx, func(
 		now *am.TimeIndex, machBuck *bbolt.Bucket) []*amhist.MemoryRecord {
 
-		mTimeIdxs := mach.Index(s.MTimeStates)
+		mTimeIdxsStart := m.Index(s.MTimeStates)
+		mTimeIdxsEnd := m.Index(e.MTimeStates)
 		b := machBuck.Bucket([]byte(BuckTimes))
-		var older *amhist.MemoryRecord
-		r := &amhist.MemoryRecord{
-			Time: &amhist.TimeRecord{},
-		}
+		bTxs := machBuck.Bucket([]byte(BuckTransitions))
 		var ret []*amhist.MemoryRecord
 
+	records:
 		for id := m.nextId.Load() - 1; id > 0; id-- {
 			if ctx.Err() != nil || m.Ctx.Err() != nil {
 				return nil
@@ -455,88 +454,58 @@ func (m *Memory) FindLatest(
 			}
 
 			// read TimeRecord
-			var err error
-			// 1st pass, move 1 more down
-			if older == nil {
-				id--
-				r.Time, err = DecTimeRecord(mach.Id(), id, v, cfg.EncJson)
-				v := b.Get(itob(id))
-				if v != nil {
-					older = &amhist.MemoryRecord{
-						Time: &amhist.TimeRecord{},
-					}
-					older.Time, err = DecTimeRecord(mach.Id(), id, v, cfg.EncJson)
-					if err != nil {
-						m.onErr(err)
-						return nil
-					}
-				}
-
-				// 2nd and later passes
-			} else if v != nil {
-				r = older
-				older = &amhist.MemoryRecord{
-					Time: &amhist.TimeRecord{},
-				}
-				older.Time, err = DecTimeRecord(mach.Id(), id, v, cfg.EncJson)
-				// TODO tx
-
-				// last pass
-			} else {
-				r = older
-				older = nil
-			}
-			// err
+			t, err := DecTimeRecord(mach.Id(), id, v, cfg.EncJson)
 			if err != nil {
 				m.onErr(err)
 				return nil
 			}
+			r := &amhist.MemoryRecord{Time: t}
 
 			// states conditions
-			t := r.Time
 
 			// Active
 			for _, state := range query.Active {
 				if !am.IsActiveTick(t.MTimeTracked[m.Index1(state)]) {
-					continue
+					continue records
 				}
 			}
 			// Activated
 			for _, state := range query.Activated {
 				idx := m.Index1(state)
 				if !am.IsActiveTick(t.MTimeTracked[idx]) {
-					continue
+					continue records
 				}
-				// if has previously been active
-				if older != nil && am.IsActiveTick(older.Time.MTimeTracked[idx]) {
-					continue
+				// if hasn't changed during this transition
+				if t.MTimeTrackedDiff[idx] == 0 {
+					continue records
 				}
 			}
 			// Inactive
 			for _, state := range query.Inactive {
-				if am.IsActiveTick(t.MTimeTracked[mach.Index1(state)]) {
-					continue
+				if am.IsActiveTick(t.MTimeTracked[m.Index1(state)]) {
+					continue records
 				}
 			}
 			// Deactivated
 			for _, state := range query.Deactivated {
 				idx := m.Index1(state)
 				if am.IsActiveTick(t.MTimeTracked[idx]) {
-					continue
+					continue records
 				}
-				// if has previously been inactive
-				if older != nil && !am.IsActiveTick(older.Time.MTimeTracked[idx]) {
-					continue
+				// if hasn't changed during this transition
+				if t.MTimeTrackedDiff[idx] == 0 {
+					continue records
 				}
 			}
-			// MTimeStates
-			if len(s.MTimeStates) > 0 {
-				// caution: slice a sliced time slice
-				mTimeTrackedCond := t.MTimeTracked.Filter(mTimeIdxs)
-				if mTimeTrackedCond.Before(false, s.MTime) ||
-					mTimeTrackedCond.After(false, e.MTime) {
-
-					continue
+			// MTimeStates (each state's tick within its own range)
+			for ii, idx := range mTimeIdxsStart {
+				if t.MTimeTracked[idx] < s.MTime[ii] {
+					continue records
+				}
+			}
+			for ii, idx := range mTimeIdxsEnd {
+				if t.MTimeTracked[idx] > e.MTime[ii] {
+					continue records
 				}
 			}
 
@@ -591,7 +560,7 @@ func (m *Memory) FindLatest(
 			// read TransitionRecord
 			if retTx && cfg.StoreTransitions {
 				r.Transition, err = DecTransitionRecord(mach.Id(), id,
-					machBuck.Get(itob(id)), cfg.EncJson)
+					bTxs.Get(itob(id)), cfg.EncJson)
 				if err != nil {
 					m.onErr(err)
 				}
